@@ -134,3 +134,5 @@ fire("C10", L, 'line_offset=int.from_bytes([b[i + 1]], "big", signed=True),', 'l
 fire("C10", L, "            while line_offset is not None and line_offset > 127:", "            while line_offset is not None and line_offset >= 127:")
 silent(["C10"], L, "and prev_item.bytecode_offset >= (254 if is_linetable else 255)", "and prev_item.bytecode_offset == (254 if is_linetable else 255)", "same set on the format's domain")
 silent(["C10"], L, "                    item.line_offset & 255,", "                    item.line_offset % 256,", "same byte")
+fire("C11", C, "    if not freevars and not cellvars:", "    if not freevars:", "NOFREE although there are cell variables")
+fire("C11", C, "    if code_data._nested:", "    if not code_data._nested:", "inverted polarity")
